@@ -1,3 +1,170 @@
+"""Self-tests of the harness's reference models against the repository's golden data and
+hand-computed examples. A failure here is a defect of the *machinery* (inconclusive), never a
+verdict on gaftools."""
+
+import gzip
+import os
+import random
+import tempfile
+import traceback
+
+from vf import bgzf, util
+from vf.util import REPO
+
+DATA = os.path.join(REPO, "tests", "data")
+
+
+def graph_from_file(path):
+    from vf.gen.rgfa import Graph
+    from vf.ref import gfa as rg
+    r = rg.read(path)
+    g = Graph()
+    for sid, (seq, _t) in r.segments.items():
+        g.add_node(sid, r.tag(sid, "SN"), int(r.tag(sid, "SO")), seq, int(r.tag(sid, "SR")))
+    for a, oa, b, ob, ov, t in r.links:
+        g.links.append([a, oa, b, ob, int(ov[:-1]), t])
+    return g, r
+
+
+def t_chain_smallgraph():
+    from vf.gen import chain
+    from vf.ref import gfa as rg
+    g, _ = graph_from_file(os.path.join(DATA, "smallgraph.gfa"))
+    ro = chain.reference_order(g, set(g.nodes), "chr1")
+    assert ro["chain"] is not None, ro["reason"]
+    tags, _bo = chain.assign_bo_no(ro["chain"], 0)
+    gold = rg.read(os.path.join(DATA, "smallgraph-ordered.gfa"))
+    exp = {s: (int(gold.tag(s, "BO")), int(gold.tag(s, "NO"))) for s in gold.segments}
+    assert tags == exp, f"reference chain order differs from smallgraph-ordered.gfa: {tags} vs {exp}"
+
+
+def t_conversion_golden():
+    from vf.ref import gaf as rgaf
+    g, _ = graph_from_file(os.path.join(DATA, "smallgraph.gfa"))
+    coords = rgaf.Coords(g)
+    un = [l.rstrip("\n") for l in open(os.path.join(DATA, "alignments-minigraph-unstable-conversioncheck.gaf")) if l.strip()]
+    st = [l.rstrip("\n") for l in open(os.path.join(DATA, "alignments-minigraph-stable-conversioncheck.gaf")) if l.strip()]
+    assert len(un) == len(st) and un
+    for u, s in zip(un, st):
+        conv = rgaf.ref_to_stable(g, u)
+        assert conv == s, f"reference conversion differs from golden file:\n{conv}\n{s}"
+        tu, lu = coords.target(rgaf.Rec(u))
+        ts, ls = coords.target(rgaf.Rec(s))
+        assert tu is not None and tu == ts and lu == ls, "spelling oracle disagrees on a golden record pair"
+        assert rgaf.traversed_nodes(g, coords, u) >= rgaf.traversed_nodes(g, coords, s)
+    rv_u = [l.rstrip("\n") for l in open(os.path.join(DATA, "alignments-minigraph-reversed-reads-unstable.gaf")) if l.strip()]
+    rv_s = [l.rstrip("\n") for l in open(os.path.join(DATA, "alignments-minigraph-reversed-reads-stable.gaf")) if l.strip()]
+    for u, s in zip(rv_u, rv_s):
+        tu, _ = coords.target(rgaf.Rec(u))
+        ts, _ = coords.target(rgaf.Rec(s))
+        assert tu is not None and tu == ts, "spelling oracle disagrees on a golden reversed record pair"
+
+
+def t_bgzf():
+    from pysam import libcbgzf
+    rng = random.Random(5)
+    lines = [("r%d\t" % i) + "x" * rng.randint(1, 3000) for i in range(200)]
+    data = ("\n".join(lines) + "\n").encode()
+    d = tempfile.mkdtemp(prefix="gaftools-vf-self")
+    try:
+        for layout in ("standard", "tiny", "line_start"):
+            p = os.path.join(d, layout + ".gz")
+            bgzf.write_bgzf(p, data, rng=rng, layout=layout)
+            with gzip.open(p, "rb") as f:
+                assert f.read() == data, "stdlib gzip reads different bytes"
+            bi = bgzf.BgzfIndex(p)
+            assert bi.data == data
+            rd = libcbgzf.BGZFile(p, "rb")
+            i = 0
+            while True:
+                off = rd.tell()
+                l = rd.readline()
+                if not l:
+                    break
+                assert bi.line_at(off) == lines[i], f"virtual offset of line {i} ({layout}) does not resolve in the block parser"
+                i += 1
+            assert i == len(lines)
+            rd.close()
+        p = os.path.join(d, "pysam.gz")
+        w = libcbgzf.BGZFile(p, "wb")
+        w.write(data)
+        w.close()
+        assert bgzf.BgzfIndex(p).data == data
+    finally:
+        import shutil
+        shutil.rmtree(d, ignore_errors=True)
+
+
+def t_cigar():
+    from vf.gen import reads as gr
+    ok, msg, st = gr.replay("3=1X2I2=1D", "ACGTTTAC", "ACGAACG")
+    assert ok and st == {"matches": 5, "block": 9, "cost": 4 + (6 + 4) + (6 + 2)}, (ok, msg, st)
+    assert not gr.replay("4=", "ACGT", "ACGA")[0]
+    assert not gr.replay("1X", "A", "A")[0]
+    assert not gr.replay("3=", "ACGT", "ACG")[0]
+    assert gr.gotoh("ACGT", "ACGT") == 0 and gr.gotoh("ACGT", "AGGT") == 4 and gr.gotoh("AAAA", "AAAATT") == 10
+    rng = random.Random(3)
+    for _ in range(200):
+        ref = "".join(rng.choice("ACGT") for _ in range(rng.randint(1, 80)))
+        seg, ops = gr.mutate(rng, ref)
+        ok, msg, _ = gr.replay(gr.cigar_str(ops), seg, ref)
+        assert ok, f"true edit script does not replay: {msg}"
+        f = gr.fragment(rng, ops, p=0.6)
+        ok, msg, st2 = gr.replay(gr.cigar_str(f), seg, ref)
+        assert ok, f"fragmented script does not replay: {msg}"
+
+
+def t_bcc_small():
+    from vf.ref import bcc
+    adj = {"a": {"b"}, "b": {"a", "c", "d"}, "c": {"b", "d"}, "d": {"b", "c", "e"}, "e": {"d"}}
+    blks, art = bcc.blocks(adj)
+    assert art == {"b", "d"} == bcc.artic_by_definition(adj)
+    assert sorted(sorted(b) for b in blks) == [["a", "b"], ["b", "c", "d"], ["d", "e"]]
+    ch = bcc.chain(adj)
+    kinds = [t for t, _ in ch["elements"]]
+    assert kinds == ["b", "s", "b", "s", "b"], kinds
+    rng = random.Random(9)
+    for _ in range(300):
+        n = rng.randint(1, 9)
+        adj = {i: set() for i in range(n)}
+        for _e in range(rng.randint(0, 14)):
+            a, b = rng.randrange(n), rng.randrange(n)
+            if a != b:
+                adj[a].add(b)
+                adj[b].add(a)
+        for comp in bcc.components(adj):
+            sub = {v: adj[v] & comp for v in comp}
+            _b, art = bcc.blocks(sub)
+            assert art == bcc.artic_by_definition(sub)
+
+
+def t_gfa_reader():
+    from vf.ref import gfa as rg
+    r = rg.read(os.path.join(DATA, "smallgraph.gfa"))
+    assert len(r.segments) == 13 and len(r.links) == 19, (len(r.segments), len(r.links))
+    pairs = r.step_pairs()
+    assert (("s2", ">"), ("s3", ">")) in pairs and (("s3", "<"), ("s2", "<")) in pairs
+    assert (("s2", "<"), ("s4", "<")) not in pairs and (("s4", "<"), ("s2", "<")) in pairs  # L s4 - s2 -
+    exp = [l.strip() for l in open(os.path.join(DATA, "find_path-output.fasta")) if not l.startswith(">")]
+    inp = [l.strip() for l in open(os.path.join(DATA, "find_path-input.txt")) if l.strip()]
+    seqs = {k: v[0] for k, v in r.segments.items()}
+    for p, e in zip(inp, exp):
+        steps = rg.parse_path(p)
+        got = rg.spell(steps, seqs) if rg.is_walk(steps, pairs) else ""
+        assert got == e, f"reference spelling of {p} differs from the golden find_path output"
+
+
+TESTS = [t_bcc_small, t_gfa_reader, t_chain_smallgraph, t_conversion_golden, t_bgzf, t_cigar]
+
+
 def run():
-    print("selftest: ok (placeholder)")
-    return 0
+    util.put_repo_on_path()
+    failed = 0
+    for t in TESTS:
+        try:
+            t()
+            print(f"selftest {t.__name__}: ok")
+        except Exception:  # noqa: BLE001
+            failed += 1
+            print(f"selftest {t.__name__}: FAILED\n{traceback.format_exc()}")
+    return 1 if failed else 0
